@@ -349,8 +349,13 @@ struct BodyWriter {
          o["k"] = "decl";
          json::Array vars;
          for (auto D : cast<DeclStmt>(S)->decls()) {
-            if (auto V = dyn_cast<VarDecl>(D)) vars.push_back(varObj(V));
-            else if (auto DD = dyn_cast<DecompositionDecl>(D)) vars.push_back(varObj(DD));
+            if (auto DD = dyn_cast<DecompositionDecl>(D)) {
+               vars.push_back(varObj(DD));
+               // tuple-like decomposition: each binding names a hidden variable initialised with get<i>(object)
+               for (auto B : DD->bindings())
+                  if (auto HV = B->getHoldingVar()) vars.push_back(varObj(HV));
+            }
+            else if (auto V = dyn_cast<VarDecl>(D)) vars.push_back(varObj(V));
          }
          o["vars"] = std::move(vars);
          break;
@@ -512,6 +517,10 @@ struct BodyWriter {
       case Stmt::DeclRefExprClass: {
          auto DR = cast<DeclRefExpr>(E);
          const ValueDecl* D = DR->getDecl();
+         // a structured binding is the expression it stands for (a member of, or std::get on, the decomposed object)
+         if (auto BD = dyn_cast<BindingDecl>(D))
+            if (auto BE = BD->getBinding())
+               if (!BE->isTypeDependent() and !BE->isValueDependent()) return XE(BE);
          o["k"] = "ref";
          o["name"] = D->getNameAsString();
          if (auto P = dyn_cast<ParmVarDecl>(D)) {
